@@ -447,4 +447,106 @@ pub(crate) mod __verif {
         kani::cover!(c0 == 0x6E);
         kani::cover!(c0 == 0x2F);
     }
+
+    // @obligation name=l1_decimal_integer_literal props=C01:t,C05:t fn=parse::Parser::try_consume_decimal_integer_literal kind=bounded bound="3 symbolic code points followed by a non-digit; plus a concrete run of 25 nines" min_checks=100 w=3 timeout=1500
+    // DecimalIntegerLiteral: consumes the maximal run of ASCII decimal digits and returns its value (None if there is no
+    // digit); a value beyond usize::MAX saturates instead of overflowing or panicking.
+    #[kani::proof]
+    #[kani::unwind(28)]
+    #[kani::stub(std::hash::RandomState::new, fixed_random_state)]
+    fn l1_decimal_integer_literal() {
+        let c: [u32; 3] = kani::any();
+        kani::assume(c[0] <= 0x10FFFF && c[1] <= 0x10FFFF && c[2] <= 0x10FFFF);
+        let buf = [c[0], c[1], c[2], 0x7D];
+        let mut p = parser(&buf, api::Flags::default());
+        let r = p.try_consume_decimal_integer_literal();
+        let dig = |x: u32| (0x30..=0x39).contains(&x);
+        let n = if !dig(c[0]) { 0 } else if !dig(c[1]) { 1 } else if !dig(c[2]) { 2 } else { 3 };
+        let mut v: usize = 0;
+        let mut i = 0;
+        while i < n { v = v * 10 + (c[i] - 0x30) as usize; i += 1; }
+        assert!(r == if n == 0 { None } else { Some(v) });
+        let mut left = 0usize;
+        while p.input.next().is_some() { left += 1; }
+        assert!(left == 4 - n, "exactly the digits are consumed");
+        core::mem::forget(p);
+        let nines = [0x39u32; 25];
+        let mut q = parser(&nines, api::Flags::default());
+        assert!(q.try_consume_decimal_integer_literal() == Some(usize::MAX), "saturates");
+        core::mem::forget(q);
+        kani::cover!(n == 3);
+        kani::cover!(n == 0);
+    }
+
+    fn braced(shape: u8) {
+        // shapes: 0 = {a}   1 = {a,}   2 = {a,b}   3 = {a  (unterminated)   4 = {}  (no number)
+        let a: u32 = kani::any();
+        let b: u32 = kani::any();
+        kani::assume((0x30..=0x39).contains(&a) && (0x30..=0x39).contains(&b));
+        let (va, vb) = ((a - 0x30) as usize, (b - 0x30) as usize);
+        let buf: [u32; 5] = match shape {
+            0 => [0x7B, a, 0x7D, 0x21, 0x21],
+            1 => [0x7B, a, 0x2C, 0x7D, 0x21],
+            2 => [0x7B, a, 0x2C, b, 0x7D],
+            3 => [0x7B, a, 0x21, 0x21, 0x21],
+            _ => [0x7B, 0x7D, 0x21, 0x21, 0x21],
+        };
+        let mut p = parser(&buf, api::Flags::default());
+        let r = p.try_consume_braced_quantifier();
+        let mut left = 0usize;
+        while p.input.next().is_some() { left += 1; }
+        match shape {
+            0 => { assert!(matches!(&r, Some(q) if q.min == va && q.max == Some(va) && q.greedy)); assert!(left == 2); }
+            1 => { assert!(matches!(&r, Some(q) if q.min == va && q.max.is_none() && q.greedy)); assert!(left == 1); }
+            2 => { assert!(matches!(&r, Some(q) if q.min == va && q.max == Some(vb) && q.greedy)); assert!(left == 0); }
+            _ => { assert!(r.is_none()); assert!(left == 5, "not a quantifier: the input is restored"); }
+        }
+        core::mem::forget(p);
+        kani::cover!(true);
+    }
+
+    // @obligation name=l1_braced_quantifier_forms props=C01:t,C05:t fn=parse::Parser::try_consume_braced_quantifier kind=bounded bound="{a}, {a,}, {a,b} with symbolic single digits" min_checks=100 w=3 timeout=1500
+    // {a} means exactly a, {a,} at least a (unbounded), {a,b} between a and b; all greedy; the whole quantifier is consumed.
+    #[kani::proof]
+    #[kani::unwind(8)]
+    #[kani::stub(std::hash::RandomState::new, fixed_random_state)]
+    fn l1_braced_quantifier_forms() {
+        braced(0);
+        braced(1);
+        braced(2);
+    }
+
+    // @obligation name=l1_braced_quantifier_rollback props=C01:t fn=parse::Parser::try_consume_braced_quantifier kind=bounded bound="`{a` without closing brace and `{}`" min_checks=100 w=3 timeout=1500
+    // Something that is not a well-formed braced quantifier yields None and leaves the input untouched (Annex B: the `{` is
+    // then an ordinary character).
+    #[kani::proof]
+    #[kani::unwind(8)]
+    #[kani::stub(std::hash::RandomState::new, fixed_random_state)]
+    fn l1_braced_quantifier_rollback() {
+        braced(3);
+        braced(4);
+    }
+
+    // @obligation name=p_disjunction_single_literal props= fn=parse::Parser::consume_disjunction,parse::Parser::consume_term kind=bounded bound="a one-character pattern whose character is not a syntax character (every such code point), flags: none / u" min_checks=100 w=3 timeout=1500
+    // A pattern consisting of one non-syntax character parses to the literal Char node for that character (so every
+    // character escape() leaves alone denotes itself).
+    #[kani::proof]
+    #[kani::unwind(4)]
+    #[kani::stub(std::hash::RandomState::new, fixed_random_state)]
+    fn p_disjunction_single_literal() {
+        let c: u32 = kani::any();
+        kani::assume(c <= 0x10FFFF);
+        let syntax = matches!(to_char_sat(c), '^' | '$' | '\\' | '.' | '*' | '+' | '?' | '(' | ')' | '[' | ']' | '{' | '}' | '|');
+        kani::assume(!syntax);
+        let unicode: bool = kani::any();
+        let buf = [c];
+        let mut p = parser(&buf, api::Flags { unicode, ..Default::default() });
+        let r = p.consume_disjunction();
+        match &r {
+            Ok(ir::Node::Char { c: x }) => assert!(*x == c),
+            _ => assert!(false, "a non-syntax character is a literal"),
+        }
+        core::mem::forget((r, p));
+        kani::cover!(c > 0xFFFF);
+    }
 }
